@@ -66,6 +66,14 @@ CLAIMS = {
         "text": "Theorems `fixint_le` / `fixint_be` (the adapter's encoding is exactly the little-/big-endian bytes of the integer's two's-complement bit pattern), `fixint_length` (exactly size_of bytes whatever the magnitude), `fixint_never_varint(_unsigned/_signed)` (never equal to the varint encoding), `fixint_roundtrip_le/_be` (decoding returns the original integer with the remainder intact) for all widths 16..128, both signs, every in-range value.",
         "note": GENERIC_NOTE,
     },
+    "C11": {
+        "text": "A flavour-generic decoder model `decG` (same flavour calls in the same order as deserializer.rs) is proved to refine the list-level decoder over the pointer-level Slice model (`decG_slice_eq_dec`, `slice_reads_in_bounds`) and related to it over the reader flavour: `reader_equiv` (a fresh reader decodes exactly the value slice decoding gives, is advanced by exactly the message length and not one byte more, uses exactly `need v` scratch bytes, in slots that are disjoint, increasing and inside the scratch buffer: `slots_disjoint`), `reader_value_eq_slice`, `reader_consecutive` (k messages back to back decode in turn), `scratch_too_small`, `reader_fault`, `reader_eof` (error, not panic, not a wrong value), `fromIo_total`; writer: `writer_bytes` (= enc v), `writer_fault` (failure at offset k: error after exactly the first k bytes, a prefix), `writer_no_fault_needed`, `writer_always_prefix`. Tied to the code with scheduled Read/Write impls for std::io and embedded-io 0.6.",
+        "note": GENERIC_NOTE + " read_exact / write_all are external and modelled by their contract; OS readers/writers are schedules.",
+    },
+    "C20": {
+        "text": "Theorems `crcSer_over_any` (over ANY inner flavour the CRC modifier forwards the same bytes byte-wise and then the checksum), `crc_over`, `cobs_over`, and the headline `crc_then_cobs` (+ `_alloc/_hvec/_slice`): for every lawful indexable storage, checksum-then-COBS output is exactly Spec.cobsEncode (enc v ++ LE checksum) ++ [0]; `unstack` / `stack_roundtrip` (COBS-decode then CRC-checked decode recovers the value and the remainder); `user_flavor_sees_plain(_stack)` (a user flavour receives exactly emit v, in order; with the default try_extend exactly the bytes of enc v one by one; under the CRC modifier enc v ++ checksum).",
+        "note": GENERIC_NOTE,
+    },
 }
 
 _PENDING = "not claimed yet: the technique applies (see DESIGN.md §6); model/correspondence for this property is still being built in this session"
